@@ -53,7 +53,11 @@ const NROLES: usize = 5;
 const SELF: usize = 1; const P1: usize = 2; const P2: usize = 3; const X1: usize = 4; const X2: usize = 5;
 const ADM: usize = 6; const OUT: usize = 7; const TGT: usize = 8; const DEAD: usize = 9;
 const NADDR: usize = 9;
-const MAX_TTL: u32 = 5000;
+/// host configurations (min_temp_entry_ttl, min_persistent_entry_ttl, max_entry_ttl): both let the library's own
+/// extend_ttl calls (roles: 1 555 200 ledgers, operations: 518 400) succeed on any kind of entry
+const HOSTCFG: [(u32, u32, u32); 2] = [(1, 4096, 3_110_400), (16, 2_073_600, 6_312_000)];
+const LONG_GAPS: [u32; 6] = [20, 100, 17_281, 20_000, 600_000, 4_000_000];
+const CAP: u32 = u32::MAX - 7_000_000;
 
 /// argument vectors of the controller's entry points
 #[derive(Clone, PartialEq, Debug)]
@@ -69,7 +73,7 @@ struct MetaD { pred: [u8; 32], salt: u8, exec: Option<usize> }
 #[derive(Clone, Debug)]
 struct SelfE { root: Cx, subs: std::vec::Vec<Cx>, metas: std::vec::Vec<MetaD> }
 #[derive(Clone, Debug, Default)]
-struct Authz { plain: std::vec::Vec<usize>, wrong: std::vec::Vec<usize>, selfe: Option<SelfE>, exec: std::vec::Vec<(usize, OpD)>, tag: &'static str }
+struct Authz { plain: std::vec::Vec<usize>, wrong: std::vec::Vec<usize>, selfe: Option<SelfE>, exec: std::vec::Vec<(usize, OpD)>, exec_trunc: std::vec::Vec<(usize, OpD, u8)>, tag: &'static str }
 
 struct World {
     e: Env,
@@ -78,6 +82,7 @@ struct World {
     avs: std::vec::Vec<(String, u64)>, // printed argv -> id
     now: u32,
     nonce: i64,
+    max_ttl: u32,
 }
 
 impl World {
@@ -211,6 +216,15 @@ impl World {
             let inv = self.invocation(&ctrl, "__check_auth", self.exec_args(o), std::vec![]);
             let en = self.entry(*x, xdr::ScVal::Void, inv); v.push(en);
         }
+        // executor signatures over a SHORTER tuple (salt or predecessor left out): they do not authorise
+        // ("execute_op", contract, fn, args, pred, salt) and are therefore not part of the printed a_exec
+        for (x, o, drop) in au.exec_trunc.iter() {
+            let full = self.exec_args(o);
+            let mut short: Vec<Val> = Vec::new(&self.e);
+            for (i, val) in full.iter().enumerate() { if i as u8 != *drop { short.push_back(val); } }
+            let inv = self.invocation(&ctrl, "__check_auth", short, std::vec![]);
+            let en = self.entry(*x, xdr::ScVal::Void, inv); v.push(en);
+        }
         v
     }
     fn invoke(&mut self, f: u8, args: Vec<Val>, au: &Authz) -> Option<Val> {
@@ -253,11 +267,12 @@ enum C {
 impl Tr {
     fn client(&self) -> ctrl::TimelockControllerClient<'_> { ctrl::TimelockControllerClient::new(&self.w.e, &self.w.addrs[SELF]) }
 
-    fn new(rng: &mut Rng, now0: u32, min_delay: u32, proposers: &[usize], executors: &[usize], admin: Option<usize>, nops: usize, plain: bool) -> Tr {
+    fn new(rng: &mut Rng, now0: u32, min_delay: u32, proposers: &[usize], executors: &[usize], admin: Option<usize>, nops: usize, plain: bool) -> Tr { Tr::new_h(rng, now0, min_delay, proposers, executors, admin, nops, plain, 0) }
+    fn new_h(rng: &mut Rng, now0: u32, min_delay: u32, proposers: &[usize], executors: &[usize], admin: Option<usize>, nops: usize, plain: bool, hc: usize) -> Tr {
         let e = Env::default();
         e.cost_estimate().budget().reset_unlimited();
         e.cost_estimate().disable_resource_limits();
-        e.ledger().with_mut(|l| { l.sequence_number = now0; l.min_temp_entry_ttl = 1; l.min_persistent_entry_ttl = 4096; l.max_entry_ttl = MAX_TTL; });
+        e.ledger().with_mut(|l| { l.sequence_number = now0; l.min_temp_entry_ttl = HOSTCFG[hc].0; l.min_persistent_entry_ttl = HOSTCFG[hc].1; l.max_entry_ttl = HOSTCFG[hc].2; });
         let mut addrs = std::vec![Address::generate(&e)]; // index 0 unused
         for _ in 1..=NADDR { addrs.push(Address::generate(&e)); }
         // ordinary accounts: always-accepting account contracts (exact entries are still required)
@@ -265,7 +280,7 @@ impl Tr {
         e.register_at(&addrs[TGT], Target, ());
         let to_vec = |xs: &[usize]| { let mut v: Vec<Address> = Vec::new(&e); for x in xs { v.push_back(addrs[*x].clone()); } v };
         e.register_at(&addrs[SELF], TimelockController, (min_delay, to_vec(proposers), to_vec(executors), admin.map(|a| addrs[a].clone())));
-        let mut w = World { e, addrs, ids: std::vec![[0u8; 32]], avs: std::vec![], now: now0, nonce: 1000 };
+        let mut w = World { e, addrs, ids: std::vec![[0u8; 32]], avs: std::vec![], now: now0, nonce: 1000, max_ttl: HOSTCFG[hc].2 };
         let mut raw = [0u8; 32];
         for x in raw.iter_mut() { *x = rng.below(256) as u8; }
         w.id_ix(raw);
@@ -292,7 +307,7 @@ impl Tr {
             if !plain && k > 0 && rng.chance(1, 6) { d = ops[rng.below(k as u64) as usize].clone(); d.salt += 1 + rng.below(2) as u8; }
             if ops.iter().any(|x| *x == d) { d.salt = 10 + k as u8; }
             let c = ctrl::TimelockControllerClient::new(&w.e, &w.addrs[SELF]);
-            let h = c.hash_operation(&w.addrs[d.target], &Symbol::new(&w.e, fn_name(d.f)), &w.av_vals(&d.av), &w.bytes(&d.pred), &w.salt(d.salt)).to_array();
+            let h = match c.try_hash_operation(&w.addrs[d.target], &Symbol::new(&w.e, fn_name(d.f)), &w.av_vals(&d.av), &w.bytes(&d.pred), &w.salt(d.salt)) { Ok(Ok(v)) => v.to_array(), _ => [0xEEu8; 32] };
             let ix = w.id_ix(h) as usize;
             let oc = w.op_coq(&d);
             tbl.push(pair(&oc, &n(ix as u64)));
@@ -300,7 +315,7 @@ impl Tr {
         }
         let nids = w.ids.len();
         let lst = |xs: &[usize]| list(&xs.iter().map(|x| n(*x as u64)).collect::<std::vec::Vec<_>>());
-        let cfg_text = format!("(Build_cfg {} (Build_hostcfg 1 {}) {}) {} {} {} {} {}", n(SELF as u64), MAX_TTL, stellar_access::access_control::MAX_ROLES,
+        let cfg_text = format!("(Build_cfg {} (Build_hostcfg {} {}) {}) {} {} {} {} {}", n(SELF as u64), HOSTCFG[hc].0, HOSTCFG[hc].2, stellar_access::access_control::MAX_ROLES,
             now0, min_delay, lst(proposers), lst(executors), opt(admin.map(|a| n(a as u64))));
         let mut tr = Tr { w, ops, op_ids, nids, tags: std::vec![1, 2, 3], cfg_text, tbl, obs0: String::new(), items: std::vec![], nexec: executors.len(), admin_self: admin.is_none() };
         tr.obs0 = tr.observe();
@@ -311,7 +326,7 @@ impl Tr {
     fn add_op(&mut self, d: OpD) -> usize {
         assert!(self.items.is_empty());
         let c = ctrl::TimelockControllerClient::new(&self.w.e, &self.w.addrs[SELF]);
-        let h = c.hash_operation(&self.w.addrs[d.target], &Symbol::new(&self.w.e, fn_name(d.f)), &self.w.av_vals(&d.av), &self.w.bytes(&d.pred), &self.w.salt(d.salt)).to_array();
+        let h = match c.try_hash_operation(&self.w.addrs[d.target], &Symbol::new(&self.w.e, fn_name(d.f)), &self.w.av_vals(&d.av), &self.w.bytes(&d.pred), &self.w.salt(d.salt)) { Ok(Ok(v)) => v.to_array(), _ => [0xEEu8; 32] };
         let ix = self.w.id_ix(h) as usize;
         let oc = self.w.op_coq(&d);
         self.tbl.push(pair(&oc, &n(ix as u64)));
@@ -321,36 +336,40 @@ impl Tr {
         self.ops.len() - 1
     }
 
+    /// every read goes through try_: a trapping getter becomes a sentinel (-1 / Unset / false / 99) that diff and monitor flag
     fn observe(&self) -> String {
         let c = self.client();
         let e = &self.w.e;
+        let aix = |a: &Address| n(self.w.addrs.iter().position(|x| x == a).unwrap_or(99) as u64);
         let md = match c.try_get_min_delay() { Ok(Ok(v)) => Some(format!("{}", v)), _ => None };
         let mut ops = std::vec![];
         for k in 0..self.nids {
             let idb = self.w.bytes(&self.w.ids[k]);
-            let st = c.get_operation_state(&idb);
-            let flags = format!("{} {} {} {}", b(c.operation_exists(&idb)), b(c.is_operation_pending(&idb)), b(c.is_operation_ready(&idb)), b(c.is_operation_done(&idb)));
-            ops.push(pair(&n(k as u64), &format!("(OV9 {} {} {})", c.get_operation_ledger(&idb), st_name(st), flags)));
+            let st = match c.try_get_operation_state(&idb) { Ok(Ok(v)) => st_name(v), _ => "Unset" };
+            let fl = |r: Result<Result<bool, soroban_sdk::ConversionError>, Result<soroban_sdk::Error, soroban_sdk::InvokeError>>| b(matches!(r, Ok(Ok(true))));
+            let flags = format!("{} {} {} {}", fl(c.try_operation_exists(&idb)), fl(c.try_is_operation_pending(&idb)), fl(c.try_is_operation_ready(&idb)), fl(c.try_is_operation_done(&idb)));
+            let lg = match c.try_get_operation_ledger(&idb) { Ok(Ok(v)) => format!("{}", v), _ => "(-1)".to_string() };
+            ops.push(pair(&n(k as u64), &format!("(OV9 {} {} {})", lg, st, flags)));
         }
-        let adm = c.get_admin().map(|a| n(self.w.addrs.iter().position(|x| *x == a).unwrap_or(99) as u64));
+        let adm = match c.try_get_admin() { Ok(Ok(v)) => v.map(|a| aix(&a)), _ => Some(n(99)) };
         let mut hr = std::vec![]; let mut cnt = std::vec![]; let mut ra = std::vec![]; let mut mem = std::vec![];
         for r in 1..=NROLES {
             let rs = self.w.role(r);
             for a in 1..=NADDR {
-                let v = c.has_role(&self.w.addrs[a], &rs).map(|x| format!("{}", x));
+                let v = match c.try_has_role(&self.w.addrs[a], &rs) { Ok(Ok(v)) => v.map(|x| format!("{}", x)), _ => Some("(-1)".to_string()) };
                 hr.push(format!("({}, {}, {})", n(a as u64), n(r as u64), opt(v)));
             }
-            let k = c.get_role_member_count(&rs);
-            cnt.push(pair(&n(r as u64), &format!("{}", k)));
+            let (k, ktext) = match c.try_get_role_member_count(&rs) { Ok(Ok(v)) => (v, format!("{}", v)), _ => (0, "(-1)".to_string()) };
+            cnt.push(pair(&n(r as u64), &ktext));
             let mut ms = std::vec![];
-            for i in 0..k { let a = c.get_role_member(&rs, &i); ms.push(n(self.w.addrs.iter().position(|x| *x == a).unwrap_or(99) as u64)); }
+            for i in 0..k.min(32) { ms.push(match c.try_get_role_member(&rs, &i) { Ok(Ok(a)) => aix(&a), _ => n(99) }); }
             mem.push(pair(&n(r as u64), &list(&ms)));
-            let adr = c.get_role_admin(&rs).map(|s| { let p = (1..=NROLES).find(|q| self.w.role(*q) == s).unwrap_or(99); n(p as u64) });
+            let adr = match c.try_get_role_admin(&rs) { Ok(Ok(v)) => v.map(|s| n((1..=NROLES).find(|q| self.w.role(*q) == s).unwrap_or(99) as u64)), _ => Some(n(99)) };
             ra.push(pair(&n(r as u64), &opt(adr)));
         }
-        let ex: std::vec::Vec<String> = c.get_existing_roles().iter().map(|s| n((1..=NROLES).find(|q| self.w.role(*q) == s).unwrap_or(99) as u64)).collect();
+        let ex: std::vec::Vec<String> = match c.try_get_existing_roles() { Ok(Ok(v)) => v.iter().map(|s| n((1..=NROLES).find(|q| self.w.role(*q) == s).unwrap_or(99) as u64)).collect(), _ => std::vec![n(99)] };
         let t = TargetClient::new(e, &self.w.addrs[TGT]);
-        let runs: std::vec::Vec<String> = self.tags.iter().map(|tg| pair(&n(*tg as u64), &format!("{}", t.count(tg)))).collect();
+        let runs: std::vec::Vec<String> = self.tags.iter().map(|tg| pair(&n(*tg as u64), &match t.try_count(tg) { Ok(Ok(v)) => format!("{}", v), _ => "(-1)".to_string() })).collect();
         format!("(Obs9 {} {} {} {} {} {} {} {} {} {})", self.w.now, opt(md), list(&ops), opt(adm), list(&hr), list(&cnt), list(&mem), list(&ra), list(&ex), list(&runs))
     }
 
@@ -426,9 +445,9 @@ impl Tr {
                 (format!("CheckAuth {} {} {}", list(&ms), list(&cs), list(&xs)), format!("check_auth_{}", shape), match r { Ok(()) => Some(None), Err(_) => None })
             }
             C::Advance(k) => {
-                let nn = self.w.now.checked_add(*k).expect("generator keeps the ledger small");
+                let nn = self.w.now.checked_add(*k).filter(|v| *v <= CAP).expect("generator keeps the ledger <= CAP");
                 self.w.set_now(nn);
-                (format!("Advance {}", k), "advance".into(), Some(None))
+                (format!("Advance {}", k), (if *k >= 17_281 { "advance_long" } else { "advance" }).into(), Some(None))
             }
         };
         let o = match res { Some(Some(i)) => format!("(OkI {})", n(i)), Some(None) => "OkN".to_string(), None => "Bad".to_string() };
@@ -449,11 +468,11 @@ impl Tr {
     }
 
     // ---------- state the generator may read ----------
-    fn ledger_of(&self, ix: usize) -> u32 { self.client().get_operation_ledger(&self.w.bytes(&self.w.ids[ix])) }
-    fn state_of(&self, ix: usize) -> OperationState { self.client().get_operation_state(&self.w.bytes(&self.w.ids[ix])) }
-    fn min_delay(&self) -> u32 { self.client().get_min_delay() }
-    fn holders(&self, r: usize) -> std::vec::Vec<usize> { (1..=NADDR).filter(|a| self.client().has_role(&self.w.addrs[*a], &self.w.role(r)).is_some()).collect() }
-    fn admin(&self) -> Option<usize> { self.client().get_admin().map(|a| self.w.addrs.iter().position(|x| *x == a).unwrap()) }
+    fn ledger_of(&self, ix: usize) -> u32 { match self.client().try_get_operation_ledger(&self.w.bytes(&self.w.ids[ix])) { Ok(Ok(v)) => v, _ => 0 } }
+    fn state_of(&self, ix: usize) -> OperationState { match self.client().try_get_operation_state(&self.w.bytes(&self.w.ids[ix])) { Ok(Ok(v)) => v, _ => OperationState::Unset } }
+    fn min_delay(&self) -> u32 { match self.client().try_get_min_delay() { Ok(Ok(v)) => v, _ => 0 } }
+    fn holders(&self, r: usize) -> std::vec::Vec<usize> { (1..=NADDR).filter(|a| matches!(self.client().try_has_role(&self.w.addrs[*a], &self.w.role(r)), Ok(Ok(Some(_))))).collect() }
+    fn admin(&self) -> Option<usize> { match self.client().try_get_admin() { Ok(Ok(Some(a))) => self.w.addrs.iter().position(|x| *x == a), _ => None } }
 }
 
 // ---------- generators ----------
@@ -482,8 +501,10 @@ fn distort(rng: &mut Rng, tr: &Tr, a: Authz, o: &OpD) -> (Authz, &'static str) {
 }
 fn distort0(rng: &mut Rng, tr: &Tr, mut a: Authz, o: &OpD) -> (Authz, &'static str) {
     let se = a.selfe.as_mut().unwrap();
-    let kinds = 15;
+    let kinds = 17;
     match rng.below(kinds) {
+        15 => { a.exec_trunc = a.exec.iter().map(|(x, o2)| (*x, o2.clone(), 5u8)).collect(); a.exec.clear(); (a, "executor-signed-without-salt") }
+        16 => { a.exec_trunc = a.exec.iter().map(|(x, o2)| (*x, o2.clone(), 4u8)).collect(); a.exec.clear(); (a, "executor-signed-without-predecessor") }
         14 => { // a further context that names ANOTHER contract: an external operation of the universe with its own descriptor
             let ext: std::vec::Vec<usize> = (0..tr.ops.len()).filter(|i| tr.ops[*i].target != SELF).collect();
             if ext.is_empty() { se.subs.push(Cx::C(TGT, 0, Av::U32(1))); let m = se.metas[0].clone(); se.metas.push(m); return (a, "foreign-contract-context"); }
@@ -581,13 +602,13 @@ fn random_call(rng: &mut Rng, tr: &Tr) -> C {
                 2 => { let r = 1 + rng.below(NROLES as u64) as usize; let hs = tr.holders(r); let w2 = pick_or(rng, &hs, who); C::Admin(17, Av::Renounce(r, w2), plain_auth(rng, w2)) }
                 3 => C::Admin(16, Av::Nil, plain_auth(rng, who)),
                 4 => C::Admin(13, Av::RoleAdmin(1 + rng.below(NROLES as u64) as usize, 1 + rng.below(NROLES as u64) as usize), plain_auth(rng, who)),
-                5 => C::Admin(14, Av::Transfer(*rng.pick(&[ADM, OUT, SELF]), match rng.below(4) { 0 => 0, 1 => tr.w.now + MAX_TTL, 2 => tr.w.now.saturating_sub(1), _ => tr.w.now + rng.below(30) as u32 }), plain_auth(rng, who)),
+                5 => C::Admin(14, Av::Transfer(*rng.pick(&[ADM, OUT, SELF]), match rng.below(4) { 0 => 0, 1 => tr.w.now + tr.w.max_ttl - rng.below(2) as u32, 2 => tr.w.now.saturating_sub(1), _ => tr.w.now + rng.below(30) as u32 }), plain_auth(rng, who)),
                 _ => C::Admin(10, Av::U32(rng.below(5) as u32), plain_auth(rng, who)),
             }
         }
         _ => {
             let pend: std::vec::Vec<u32> = tr.op_ids.iter().map(|ix| tr.ledger_of(*ix)).filter(|r| *r > tr.w.now).collect();
-            if !pend.is_empty() && rng.chance(3, 4) { let r = *rng.pick(&pend); let gap = r - tr.w.now; C::Advance(match rng.below(4) { 0 => gap - 1, 3 => gap + 1, _ => gap }) } else { C::Advance(rng.below(3) as u32) }
+            if !pend.is_empty() && rng.chance(3, 4) { let r = *rng.pick(&pend); let gap = r - tr.w.now; C::Advance(match rng.below(4) { 0 => gap - 1, 3 => gap + 1, _ => gap }) } else if rng.chance(1, 4) { C::Advance((*rng.pick(&LONG_GAPS)).min(CAP - tr.w.now)) } else { C::Advance(rng.below(3) as u32) }
         }
     }
 }
@@ -613,7 +634,7 @@ fn directed(out: &mut Out, rng: &mut Rng, nexec: usize, state: u8, shape: u64, w
     if shape > 0 {
         // search the seed space for the distortion kind number shape-1 so that every kind is hit deterministically
         let mut sd = shape * 7919 + which as u64;
-        loop { let mut probe = Rng::new(sd); if probe.below(15) == (shape - 1) % 15 { break; } sd += 1; }
+        loop { let mut probe = Rng::new(sd); if probe.below(17) == (shape - 1) % 17 { break; } sd += 1; }
         let (a2, t) = distort(&mut Rng::new(sd), &tr, au, &o); au = a2; tag = t;
     }
     tr.call(out, &C::Admin(o.f, o.av.clone(), au));
@@ -704,6 +725,48 @@ fn main() {
         tr.call(&mut out, &C::Schedule(k0, 2, P1, pa(P1)));                       // nor re-scheduled
         tr.finish(&mut out, &format!("directed/external-execute-exec{}", nexec));
     }
+    // persistence: every kind of stored item (operation marks Waiting/Ready/Done/absent, minimum delay, admin, role
+    // membership + enumeration, role admins, existing roles) must survive long ledger gaps; each gap is ONE Advance
+    for hc in 0..2usize {
+        for (gi, &gap) in LONG_GAPS.iter().enumerate() {
+            if !thorough && (gi + hc + out.cfg.seed as usize) % 2 == 1 && gap != 4_000_000 && gap != 600_000 { continue; }
+            let mut tr = Tr::new_h(&mut rng, 100 + gi as u32, 2, &[P1, P2], &[X1], None, 12, true, hc);
+            let pa = |p: usize| { let mut a = Authz::default(); a.plain.push(p); a };
+            let o: std::vec::Vec<OpD> = tr.ops.clone();
+            let ids = tr.op_ids.clone();
+            for k in [0usize, 6, 7, 2, 11, 1, 3] { tr.call(&mut out, &C::Schedule(k, 2, P1, pa(P1))); }
+            tr.call(&mut out, &C::Schedule(5, gap.saturating_add(7), P2, pa(P2)));            // stays Waiting across the gap
+            tr.call(&mut out, &C::Advance(2));
+            for k in [0usize, 6, 7] { tr.call(&mut out, &C::Admin(o[k].f, o[k].av.clone(), good_self(&o[k], Some(X1)))); }
+            tr.call(&mut out, &C::Cancel(ids[1], P1, pa(P1)));
+            // now: op0 Done (min delay changed), role admin of minter = madmin, OUT holds madmin, op1 absent, op2/op3/op11 Ready, op5 Waiting
+            tr.call(&mut out, &C::Advance(gap));
+            tr.call(&mut out, &C::Admin(o[0].f, o[0].av.clone(), good_self(&o[0], Some(X1))));   // Done forever
+            tr.call(&mut out, &C::Schedule(0, 9, P1, pa(P1)));
+            tr.call(&mut out, &C::Cancel(ids[0], P1, pa(P1)));
+            tr.call(&mut out, &C::Admin(11, Av::Role(P2, 4, OUT), pa(OUT)));                    // delegated role admin still works
+            let md = tr.min_delay();
+            tr.call(&mut out, &C::Schedule(1, md.saturating_sub(1), P2, pa(P2)));               // minimum delay still in force
+            tr.call(&mut out, &C::Schedule(1, md, OUT, pa(OUT)));                               // still not a proposer
+            tr.call(&mut out, &C::Schedule(1, md, P2, pa(P2)));
+            tr.call(&mut out, &C::Execute(11, Some(OUT), pa(OUT)));                             // executors still configured
+            tr.call(&mut out, &C::Execute(11, None, Authz::default()));
+            tr.call(&mut out, &C::Execute(11, Some(X1), pa(X1)));
+            tr.call(&mut out, &C::Admin(10, Av::U32(0), Authz::default()));                     // admin still the controller
+            tr.call(&mut out, &C::Admin(10, Av::U32(0), pa(ADM)));
+            tr.call(&mut out, &C::Admin(o[5].f, o[5].av.clone(), good_self(&o[5], Some(X1))));   // still Waiting
+            tr.call(&mut out, &C::Admin(o[2].f, o[2].av.clone(), good_self(&o[2], None)));       // executor still required
+            tr.call(&mut out, &C::Admin(o[2].f, o[2].av.clone(), good_self(&o[2], Some(X1))));   // still Ready
+            tr.call(&mut out, &C::Cancel(ids[3], OUT, pa(OUT)));                                // OUT is proposer now, not canceller
+            tr.call(&mut out, &C::Cancel(ids[3], P2, pa(P2)));
+            tr.call(&mut out, &C::Advance(gap));
+            tr.call(&mut out, &C::Schedule(4, md, OUT, pa(OUT)));                               // granted role persists
+            tr.call(&mut out, &C::Admin(17, Av::Renounce(4, P2), pa(P2)));                      // delegated grant persisted
+            tr.call(&mut out, &C::Admin(o[5].f, o[5].av.clone(), good_self(&o[5], Some(X1))));
+            tr.call(&mut out, &C::Execute(11, Some(X1), pa(X1)));
+            tr.finish(&mut out, &format!("directed/persistence-gap{}-host{}", gap, hc));
+        }
+    }
     // cancelling needs the CANCELLER role, scheduling the PROPOSER role - not the other one
     {
         let mut tr = Tr::new(&mut rng, 500, 1, &[P1, P2], &[], None, 6, true);
@@ -743,7 +806,7 @@ fn main() {
         tr.call(&mut out, &C::Admin(11, Av::Role(P2, 4, OUT), pa(OUT)));
         tr.finish(&mut out, "directed/role-admin-delegation");
     }
-    let nshape = 16u64;
+    let nshape = 18u64;
     for nexec in 0..=1usize { for state in 0..=4u8 { for shape in 0..nshape {
         let core = state == 2 && nexec == 1;   // always: every payload shape against a Ready operation, executors configured
         if !thorough && !core && shape > 0 && (shape + state as u64 + nexec as u64 + out.cfg.seed) % 3 != 0 { continue; }
@@ -761,7 +824,8 @@ fn main() {
         let start = match rng.below(4) { 0 => 2, 1 => 3, _ => 2 + rng.below(500) as u32 };
         let nops = 5 + rng.below(6) as usize;
         let md0 = rng.below(4) as u32;
-        let mut tr = Tr::new(&mut rng, start, md0, &props, &execs, admin, nops, false);
+        let hc = rng.below(2) as usize;
+        let mut tr = Tr::new_h(&mut rng, start, md0, &props, &execs, admin, nops, false, hc);
         let len = if thorough { 30 + rng.below(40) } else { 25 + rng.below(20) } as usize;
         for _ in 0..len { let c = random_call(&mut rng, &tr); tr.call(&mut out, &c); }
         let _ = (tr.nexec, tr.admin_self);
